@@ -248,3 +248,7 @@ fn util_reach_witness() {
         assert!(false); // must be reported FAILED
     }
 }
+
+// (A harness over the range builtin `NumericRange::call` - bounds in [-3, 4]^2, both kinds of end - was measured after
+// seeded change C18-d and is not run: the builtin is reachable only through PreExp evaluation and the transformer /
+// function contexts (hash maps: std's RandomState needs a stub for its key syscall); with that stub no verdict in 700 s.)
